@@ -306,10 +306,12 @@ def run(case, drv):
                             dis.append([pos[x], pos[y], [[routing.link_disjoint(net, p, q) for q in cands[pos[y]]]
                                                          for p in cands[pos[x]]]])
             ok = [[routing.crosses_in_order(pre['nodes'][r], p) for p in cands[r]] for r in range(len(ids))]
+            vals = {}
+            vid = [[vals.setdefault(tuple(p), len(vals)) for p in cands[r]] for r in range(len(ids))]
             ans = drv.ask('c12.select', ncand=[len(c) for c in cands],
                           groups=[[k, [pos[x] for x in g]] for k, g in pre['groups']],
                           reqs=list(range(len(ids))), dis=dis, ok=ok, strict=pre['strict'],
-                          hasinc=[bool(x) for x in pre['nodes']])
+                          hasinc=[bool(x) for x in pre['nodes']], vid=vid)
             res.cmp_exact('compute_path_dsjctn.DisjunctionError(selection)', bool(raised), ans['chosen'] is None,
                           counts=[ans['n2'], ans['n3'], ans['n4']])
             if raised is None and ans['chosen'] is not None:
